@@ -191,4 +191,14 @@ theorem process_setting_writes_known :
 theorem no_unrestored_setting :
     Known.processSettingWrites.all (fun r => decide (r.2.2.2.1 ≠ .notRestored)) = true := by decide
 
+/-! #### per-run containers and stacks -/
+
+/-- the containers of the per-run classes are created in `__init__` (a container moved to the class body leaves this
+    list and enters `cells`, where `cells_known` rejects it) -/
+theorem per_run_containers_known : Gen.GlobalState.perRunContainers = Known.perRunContainers := by rfl
+
+/-- every push onto a run-time stack is immediately followed by the `try` whose `finally` pops it: no statement — in
+    particular no `raise` — between push and protection, so a failing run leaves the stack as it found it (`Bal`) -/
+theorem stacks_restored_on_every_path : Gen.GlobalState.stackDiscipline = Known.stackDiscipline := by rfl
+
 end SnowModel.Props.C19Bridge
